@@ -174,8 +174,8 @@ class _ParseTreeProcessor(parsimonious.NodeVisitor):
 
     def visit_line(self, node: _Node, children: _Children) -> None:
         _ = children
-        if len(node.text) == 0:
-            # Line is empty, flush comment
+        if len(node.text.strip()) == 0:
+            # Line is empty (blanks alone do not make it any less empty), flush comment
             self._flush_comment()
 
     def visit_end_of_line(self, node: _Node, _c: _Children) -> None:
